@@ -346,9 +346,23 @@ func (eval *Evaluator) dft(ctIn *rlwe.Ciphertext, matrices []ltcommon.LinearTran
 
 	inputLogSlots := ctIn.LogDimensions
 
-	// Sequentially multiplies w with the provided dft matrices.
-	if err = eval.LTEvaluator.EvaluateSequential(ctIn, matrices, opOut); err != nil {
-		return
+	// Sequentially multiplies w with the provided dft matrices. A group of matrices sharing one level
+	// (MatrixLiteral.Levels[i] > 1) carries the root of the prime as scale: the rescale only happens
+	// once the scale has grown by a whole prime, i.e. when it can return to the scale of the input.
+	minScale := ctIn.Scale
+
+	in := ctIn
+	for i := range matrices {
+
+		if err = eval.LTEvaluator.EvaluateMany(in, matrices[i:i+1], []*rlwe.Ciphertext{opOut}); err != nil {
+			return
+		}
+
+		if err = eval.RescaleTo(opOut, minScale, opOut); err != nil {
+			return
+		}
+
+		in = opOut
 	}
 
 	// Encoding matrices are a special case of `fractal` linear transform
